@@ -6,6 +6,7 @@ import (
 )
 
 var vHarnesses = map[string]func(p []int){
+	"H_C11_single": func(p []int) { H_C11_single() },
 	"H_C07_workflow": func(p []int) { H_C07_workflow(p[0]) },
 	"H_C12_threshold":        func(p []int) { H_C12_threshold(p[0], p[1]) },
 	"H_C12_threshold_values": func(p []int) { H_C12_threshold_values() },
